@@ -131,9 +131,12 @@ def tagged_rule(ctx):
             for dk, dv in docs.items():
                 key = "#6%s(t)|content %s|%s" % ("" if con is None else ".%d" % con, "ok" if content_ok else "fails", dk)
                 obj = vt.self_obj("cbor", dv)
-                obj[2]["state"][2].update({"is_multi_type_choice": False, "is_multi_group_choice": False, "data_location": ("str", ""),
-                                           "type_group_name_entry": ("None",), "enabled_features": ("None",)})
+                guard = absint.PyMap()
+                guard[absint.hkey(("str", "t\x00/loc"))] = None
+                obj[2]["state"][2].update({"is_multi_type_choice": False, "is_multi_group_choice": False, "data_location": ("str", "/loc"),
+                                           "type_group_name_entry": ("None",), "enabled_features": ("None",), "visited_rules": guard})
                 sub = []
+                seen_ctx = []
 
                 def new(run, node, args, sub=sub):
                     o = vt.self_obj("cbor", args[1] if len(args) > 1 else absint.OPAQUE)
@@ -141,15 +144,19 @@ def tagged_rule(ctx):
                     sub.append(o)
                     return o
 
-                def visit_type(run, node, recv, sub=sub, content_ok=content_ok):
+                def visit_type(run, node, recv, sub=sub, content_ok=content_ok, seen_ctx=seen_ctx):
                     if sub and recv is sub[-1]:
+                        cst = recv[2]["state"][2]
+                        vr = cst.get("visited_rules")
+                        seen_ctx.append((cst.get("data_location"), isinstance(vr, absint.PyMap) and absint.hkey(("str", "t\x00/loc")) in vr))
                         if not content_ok:
                             recv[2]["errors"].append(("str", "content error"))
                         return ("Ok", ("tuple", []))
                     return NotImplemented
                 t2 = ("enum", "Type2::TaggedData", {"tag": ("Some", ("tagc", con)) if con is not None else ("None",), "t": ("enum", "Type", {"type_choices": absint.MutList()})})
                 r = vt.Run(f, "cbor", "default", {}, {"self": obj, "t2": t2},
-                           scripts={"as_literal": tagc, "CBORValidator::new": new, "visit_type": visit_type, "push_str": lambda run, node, recv: ("tuple", [])})
+                           scripts={"as_literal": tagc, "CBORValidator::new": new, "visit_type": visit_type})
+                r.it.string_places = True
                 try:
                     r.run(fi.node)
                 except absint.Unknown as e:
@@ -160,6 +167,13 @@ def tagged_rule(ctx):
                 exp = is_tag and (con is None or dk == "tag%d" % con) and content_ok
                 verdict = nerr == 0
                 ctx.site(rid, key, CBORF, fi.line, {"verdict": "accept" if verdict else "reject", "content_visits": len(sub)})
+                # the content is validated at the position of the tag itself: a rule that is being validated there may be referred to again
+                # inside the content (t = int / #6.99(t)), which is progress, so the recursion guard of that position must not be in force
+                for loc, guarded in seen_ctx:
+                    if guarded and loc == ("str", "/loc"):
+                        ctx.violation(rid, "content-under-parent-guard", CBORF, fi.line, "the content of a tagged item is validated at the tag's own document "
+                                      "position with the enclosing recursion guard in force: `t = int / #6.99(t)` rejects 99(99(5)) as a zero-progress cycle")
+                        break
                 if verdict != exp:
                     ctx.violation(rid, "#6%s|%s|%s" % ("" if con is None else ".n", "content " + ("ok" if content_ok else "fails"), "tag" if is_tag else dk), CBORF, fi.line,
                                   "CBOR validator %ss a %s document for `#6%s(t)` with content %s; RFC 8610 section 3.6 says %s"
